@@ -76,10 +76,17 @@ func mutateSpec(t *Tape, s string) string {
 			}
 		case 3:
 			// insert a structural fragment
-			frag := []string{"...", "[", "]", "(", ")", " | ", " -- ", "OPTIONS", "[]", "=<x>", " - ", "-a", "--"}[t.Draw(13)]
+			frag := []string{"...", "[", "]", "(", ")", " | ", " -- ", "OPTIONS", "[]", "=<x>", " - ", "-a", "--", "…", "\xe2\x80", "\xe2", "–", "\xc3", "=<é…>", "\xf0\x9f\x98"}[t.Draw(20)]
 			k := t.Draw(len(b) + 1)
 			b = append(b[:k], append([]byte(frag), b[k:]...)...)
 		}
+	}
+	if t.Draw(5) == 0 && len(b) > 1 {
+		// cut the string anywhere, also in the middle of a multi-byte character
+		b = b[:1+t.Draw(len(b)-1)]
+	}
+	if t.Draw(6) == 0 {
+		b = append(b, []string{"\xe2\x80", "\xe2", "…", "\xc3", " ", "\t", "."}[t.Draw(7)]...)
 	}
 	if len(b) > 200 {
 		b = b[:200]
@@ -143,6 +150,9 @@ func (c03Prop) Gen(t *Tape, ph *PhaseCfg) Case {
 	ds := genDecls(t, 4)
 	c.DS = ds
 	var node *specNode
+	if t.Draw(40) == 0 {
+		return genManyOptions(t)
+	}
 	switch t.Weighted(4, 2, 3, 1) {
 	case 0:
 		node = genSpec(t, ds, 3, 3)
@@ -301,4 +311,36 @@ func (c03Prop) Exec(cc Case, st *Stats) *Violation {
 		return nil
 	}
 	return &Violation{Clause: "undocumented-end", Detail: "the run ended in none of the documented outcomes: " + describeEnd(p), Observed: observed}
+}
+
+// genManyOptions: a command with more options than fit any word-sized bookkeeping (66..90), some of the
+// late ones backed by set environment variables, under OPTIONS, with something left on the command line.
+func genManyOptions(t *Tape) *c03Case {
+	c := &c03Case{Source: "many-options"}
+	ds := &DeclSet{}
+	n := 66 + t.Draw(25)
+	for i := 0; i < n; i++ {
+		d := &Decl{Name: fmt.Sprintf("o%02d", i), Kind: []ValKind{KBool, KString, KStrings}[t.Draw(3)]}
+		if i >= 60 && t.Draw(3) == 0 {
+			d.EnvVars = []int{i % envPool}
+		}
+		ds.Opts = append(ds.Opts, d)
+	}
+	ds.Args = []*Decl{{IsArg: true, Name: "X", Kind: KStrings}}
+	c.DS = ds
+	c.Spec = []string{"[OPTIONS] X...", "[OPTIONS] [X...]", "OPTIONS... X", "[OPTIONS]... X..."}[t.Draw(4)]
+	argv := []string{"app"}
+	k := t.Draw(4)
+	for i := 0; i < k; i++ {
+		d := ds.Opts[t.Draw(n)]
+		s := &sentence{}
+		s.emitOpt(t, d)
+		argv = append(argv, s.toks...)
+	}
+	for i := t.Draw(3); i > 0; i-- {
+		argv = append(argv, "v"+strconv.Itoa(i))
+	}
+	c.Argv = argv
+	c.Env = envFor(t, ds.Opts, func(d *Decl) bool { return true })
+	return c
 }
